@@ -381,3 +381,73 @@ def angle_arguments_rule(repo: Repo, prop: str, rule_id: str, modules=("optimize
             visit(fn.node.body)
     r.require(n >= floor, f"only {n} inverse-trigonometric calls found in the quality kernels")
     return r
+
+
+def scale_free_module_rule(repo: Repo, prop: str, rule_id: str, modules, floor: int = 1) -> RuleRun:
+    """Every comparison of a geometric quantity with the library's small numbers (TOL, VSMALL) in the named modules: the quantity
+    scales like a length at most (degree 0 or 1). An area - the norm of a cross product of two edge vectors - compared with the
+    length tolerance decides differently for a sub-millimetre block than for the same block at scale 1 (flow-sensitive scaling
+    degrees; comparisons whose quantity cannot be typed are counted in a note, not judged)."""
+    r = RuleRun(prop, rule_id, floor=floor, what="quantities compared with TOL / VSMALL scale like a length at most (never an area against the length tolerance)")
+    n = skipped = 0
+    for mname in modules:
+        mod = repo.module(mname)
+        for fn in sorted(repo.all_functions(), key=lambda f_: f_.qualname):
+            if fn.module is not mod:
+                continue
+            env: Dict[str, object] = {}
+            for a in fn.node.args.args:
+                ann = ast.unparse(a.annotation) if a.annotation is not None else ""
+                if any(t in ann for t in ("PointType", "VectorType", "PointListType")):
+                    env[a.arg] = 1
+            k = 0
+
+            def judge(node, fn=fn, env=env):
+                nonlocal n, skipped, k
+                if not (isinstance(node, ast.Compare) and len(node.ops) == 1 and isinstance(node.ops[0], (ast.Lt, ast.LtE, ast.Gt, ast.GtE))):
+                    return
+                sides = [node.left, node.comparators[0]]
+                small = [x for x in sides if _is_plain_constant(x) and not isinstance(x, ast.Constant)]
+                if len(small) != 1:
+                    return
+                other = sides[1] if small[0] is sides[0] else sides[0]
+                try:
+                    deg = homogeneity(other, env, {})
+                except (_Unknown, Inhomogeneous):
+                    skipped += 1
+                    return
+                n += 1
+                r.check(
+                    deg is None or deg <= 1,
+                    fn,
+                    f"'{ast.unparse(node)[:60]}': degree {deg}",
+                    f"{fn.qualname}: '{ast.unparse(node)[:80]}' compares a quantity that scales with the size of the block to the power {deg} (an area) with the length tolerance: for a block with edges below about "
+                    "0.3 mm the test takes every triangle for collapsed - the same block at scale 1 is handled correctly",
+                    node,
+                    key=f"compare#{k}",
+                )
+                k += 1
+
+            def visit(body):
+                for st in body:
+                    tests = [st.test] if isinstance(st, (ast.If, ast.While)) else []
+                    for t in tests:
+                        for x in ast.walk(t):
+                            judge(x)
+                    if not isinstance(st, (ast.If, ast.While, ast.For, ast.With, ast.Try, ast.FunctionDef, ast.ClassDef)):
+                        for x in ast.walk(st):
+                            judge(x)
+                    if isinstance(st, ast.Assign) and len(st.targets) == 1 and isinstance(st.targets[0], ast.Name):
+                        try:
+                            env[st.targets[0].id] = homogeneity(st.value, env, {})
+                        except (_Unknown, Inhomogeneous):
+                            env.pop(st.targets[0].id, None)
+                    for sub in ("body", "orelse", "finalbody"):
+                        inner = getattr(st, sub, None)
+                        if isinstance(inner, list) and inner and isinstance(inner[0], ast.stmt) and not isinstance(st, (ast.FunctionDef, ast.ClassDef)):
+                            visit(inner)
+
+            visit(fn.node.body)
+    r.note(f"{skipped} comparison(s) with a small number whose other side could not be typed are not judged")
+    r.ok(None, f"{n} comparisons judged in {list(modules)}", key="scan")
+    return r
